@@ -10,7 +10,7 @@ KEYS = ("a", "b", "zz")
 
 
 class Model:
-    def __init__(self, derive=("Select", "Where", "MD1"), qmds=QMDS[:2] + QMDS[3:], execs=("Value",), roots=(1, 1), held=False):
+    def __init__(self, derive=("Select", "Where", "MD1", "MD0", "Awk"), qmds=QMDS[:2] + QMDS[3:], execs=("Value",), roots=(1, 1), held=False):
         self.derive, self.qmds, self.execs, self.roots, self.held = list(derive), list(qmds), list(execs), roots, held
 
     def fresh(self):
@@ -21,6 +21,12 @@ class Model:
     def enabled(self, w):
         ops = []
         for i in range(len(w.streams)):
+            if w.terminal[i]:
+                # a result-format terminal: nothing can be derived from it, but it can be asked for query metadata (the
+                # invariant does that for every live stream) and it can be executed
+                for e in self.execs:
+                    ops.append((e, i))
+                continue
             for d in self.derive:
                 ops.append((d, i))
             for q in self.qmds:
@@ -98,7 +104,7 @@ class C16(Check):
     title = "Query-level metadata accumulates, is inherited, and never reaches a backend"
     state_based = True
     rule = ("breadth-first exploration of every history up to the stated depth of QMetaData({a:1}), ({a:2}), "
-            "({b:1}), ({a:1,b:2}), Select, Where, MetaData and value(), each applicable to every live stream "
+            "({b:1}), ({a:1,b:2}), Select, Where, MetaData (also with an empty dictionary), the AsAwkwardArray terminal and value(), each applicable to every live stream "
             "(dataset root included, branching); reference model: one dict per stream, copied from the parent on "
             "derivation and updated by QMetaData; after EVERY transition lookup_query_metadata(s, k) is compared "
             "with the model for every live stream and k in {a, b, never-set}; at value() the AST the executor "
